@@ -163,9 +163,11 @@ static void dsweep(const char* api, const char* kind, size_t n, unsigned seed) {
     /* damaged copies of the frame: any capacity; only "error or n <= capacity" and no access outside the buffers */
     {   unsigned x = seed * 2246822519u + 3; int k; for (k = 0; k < 24; k++) { size_t cap, r; gbuf gd, gs2; size_t cs2 = cs; ZSTD_DCtx* d = ZSTD_createDCtx();
             x = x * 1103515245u + 12345u; memcpy(tmp, ref, cs);
-            if (k % 3 == 0 && cs > 2) cs2 = 1 + (x >> 8) % (cs - 1); else { int f; for (f = 0; f < 1 + k % 3; f++) { x = x * 1103515245u + 12345u; tmp[(x >> 8) % cs] ^= (unsigned char)(1u << ((x >> 4) & 7)); } }
+            if (k % 6 == 3 && cs > 6) cs2 = cs - 1 - (x >> 8) % 4;           /* the last 1..4 bytes (the checksum, when there is one) are missing */
+            else if (k % 3 == 0 && cs > 2) cs2 = 1 + (x >> 8) % (cs - 1); else { int f; for (f = 0; f < 1 + k % 3; f++) { x = x * 1103515245u + 12345u; tmp[(x >> 8) % cs] ^= (unsigned char)(1u << ((x >> 4) & 7)); } }
             x = x * 1103515245u + 12345u; cap = (k & 1) ? n : (x >> 8) % (n + 2);
             gd = galloc(cap); gs2 = galloc(cs2); memcpy(gs2.p, tmp, cs2);
+            if (k & 2) ZSTD_DCtx_setParameter(d, ZSTD_d_forceIgnoreChecksum, 1);      /* (ignoring the checksum must not mean reading where it would be) */
             snprintf(g_op, sizeof(g_op), "DSWEEP-damaged %s %s %zu %u k=%d cap=%zu", api, kind, n, seed, k, cap);
             if (!strcmp(api, "stream") || !strcmp(api, "stableOut")) { ZSTD_inBuffer in; ZSTD_outBuffer ob; int guard = 0; in.src = gs2.p; in.size = cs2; in.pos = 0; ob.dst = gd.p; ob.size = cap; ob.pos = 0; r = 1;
                 while (r != 0 && ++guard < 100000) { size_t before = ob.pos + in.pos; r = ZSTD_decompressStream(d, &ob, &in); if (ob.pos > cap) dmgOver++; if (ZSTD_isError(r)) break; if (ob.pos + in.pos == before) break; } if (!ZSTD_isError(r)) r = ob.pos; }
